@@ -87,7 +87,7 @@ def strategy_big(draw):
         w["n"] = n
     case["windows"] = wins
     fft = draw(st.sampled_from([None, None, 2 ** 15, 2 ** 16, 2 ** 17, "record-length"]))
-    nfft = n if fft == "record-length" else max(oracle.nextpow2(n), fft or 0)
+    nfft = n if (fft == "record-length" or fft == n) else max(oracle.nextpow2(n), fft or 0)      # a requested n equal to the window length is honoured as it is
     case["fft"] = fft
     case["pre_fft"] = draw(st.sampled_from([None, 2 ** 15, 2 ** 16, "record-length"]))
     op, bw = case["op"], case["bw"]
@@ -136,7 +136,7 @@ def check_case(case):
         return out, s.fft_settings["n"]
 
     raw, N = psd(recs)
-    want_N = n if case["fft"] == "record-length" else max(oracle.nextpow2(n), case["fft"] or 0)
+    want_N = n if (case["fft"] == "record-length" or case["fft"] == n) else max(oracle.nextpow2(n), case["fft"] or 0)
     require(N == want_N, f"FFT length {N}, expected {want_N}")
     fgrid = np.fft.rfftfreq(N, dt)
     w = oracle.taper(n, width)
